@@ -164,6 +164,9 @@ CONTEXTS = {
     "start_synced": _constraint(lambda P, lst, t, o: ps.TasksStartSynced(task_1=t.obj, task_2=o.obj)),
     "end_synced": _constraint(lambda P, lst, t, o: ps.TasksEndSynced(task_1=o.obj, task_2=t.obj)),
     "dont_overlap": _constraint(lambda P, lst, t, o: ps.TasksDontOverlap(task_1=t.obj, task_2=o.obj)),
+    "start_synced_optional_second": _constraint(lambda P, lst, t, o: ps.TasksStartSynced(task_1=o.obj, task_2=t.obj)),
+    "end_synced_optional_first": _constraint(lambda P, lst, t, o: ps.TasksEndSynced(task_1=t.obj, task_2=o.obj)),
+    "dont_overlap_optional_second": _constraint(lambda P, lst, t, o: ps.TasksDontOverlap(task_1=o.obj, task_2=t.obj)),
     "start_at": _constraint(lambda P, lst, t, o: ps.TaskStartAt(task=t.obj, value=P.int("c_v", ph=4))),
     "end_before": _constraint(lambda P, lst, t, o: ps.TaskEndBefore(task=t.obj, value=P.int("c_v", ph=4))),
     "group_window": _constraint(lambda P, lst, t, o: ps.UnorderedTaskGroup(list_of_tasks=lst, time_interval=(P.int("c_lo", ph=1), P.int("c_hi", ph=30))), True),
